@@ -15,6 +15,13 @@ def handleThick (stream : String) (t : Toks) : Option String :=
     match Thick.thickPoints ⟨s, e⟩ w with
     | some ps => some (fmtPtsDigest ps)
     | none => some "stuck"
+  | "thick.bbox" =>
+    let (s, t) := t.pt
+    let (e, t) := t.pt
+    let (w, _) := t.nat
+    match Thick.styledBoundingBox ⟨s, e⟩ w with
+    | some r => some (fmtRect r)
+    | none => some "stuck"
   | _ => none
 
 end EG.Driver
